@@ -72,6 +72,32 @@ class C03(Prop):
             weights = [3] * 3 + [1] * (len(alpha) - 3)
             rows = [''.join(rng.choices(alpha, weights)[0] if rng.random() < d else ' ' for _ in range(w)) for _ in range(h)]
             out.append(self.make('grid', '\n'.join(rows)))
+        # a box with a line that crosses one of its edges (through a '+' in the edge, or a wall with '-' on both sides):
+        # every cell keeps its strokes, the crossing cell too
+        for _ in range(300 if tier == 'quick' else 6000):
+            w = rng.randint(1, 6); h = rng.randint(1, 4)
+            rows = [list(' ' * (w + 6)) for _ in range(h + 6)]
+            x0, y0 = 2, 2
+            for x in range(x0, x0 + w + 2):
+                rows[y0][x] = '-'; rows[y0 + h + 1][x] = '-'
+            for y in range(y0, y0 + h + 2):
+                rows[y][x0] = '|'; rows[y][x0 + w + 1] = '|'
+            for x, y in ((x0, y0), (x0 + w + 1, y0), (x0, y0 + h + 1), (x0 + w + 1, y0 + h + 1)): rows[y][x] = '+'
+            for _k in range(rng.randint(1, 2)):
+                if rng.random() < 0.5:
+                    x = rng.randint(x0 + 1, x0 + w); y = rng.choice([y0, y0 + h + 1])
+                    rows[y][x] = rng.choice('+|'); L = rng.randint(1, 2)
+                    for d in range(1, L + 1):
+                        if rows[y - d][x] == ' ': rows[y - d][x] = '|'
+                        if rows[y + d][x] == ' ': rows[y + d][x] = '|'
+                else:
+                    y = rng.randint(y0 + 1, y0 + h); x = rng.choice([x0, x0 + w + 1])
+                    rows[y][x] = rng.choice('+|'); L = rng.randint(1, 2)
+                    for d in range(1, L + 1):
+                        if rows[y][x - d] == ' ': rows[y][x - d] = '-'
+                        if rows[y][x + d] == ' ': rows[y][x + d] = '-'
+            text = '\n'.join(''.join(r).rstrip() for r in rows)
+            out.append(self.make('crossing', text))
         return out
     def item_from_json(self, j): return item_from_json(None, j)
     def oracle(self, it):
